@@ -621,6 +621,10 @@ def step(st, op, reads, on_copy, full=True, check_names=None):
             probs.append((f'frame:bonds@{tag}', f'bonds {diff[:5]} differ from the expected result of {op_text(op)}'))
     names = None if full else check_names
     p, calc, views = coherence(obj, names)
+    if p and out.raised and out.note and out.note[0] == 'documented-exception':
+        # one root cause: the documented exception left the molecule half edited
+        p = [(f'partial:{out.raised}', f'{out.raised} raised by {op_text(op)} left the molecule incoherent: ' +
+              '; '.join(f for f, _ in p)[:300] + ' | ' + p[0][1])]
     probs += [(f'{f}@{tag}', d) for f, d in p]
     probs += [(f'{f}@{tag}', d) for f, d in hydrogens(out, h_pre, obj, calc)]
     if out.fresh:
